@@ -801,3 +801,73 @@ def check_mixed_accumulation(prog, rep, rels, rule='ACCUM-mixed'):
                               'lost' % (key_text(p)[:60], c, key_text(a)[:60]), p.lineno)
     rep.instance(rule, {'functions_analysed': n, 'modules': list(rels)})
     return n
+
+
+# ---------------------------------------------------------------------------------------------
+# CALL-dict-forward: `self.m(..., **P)` where P is a parameter of the caller and the resolved
+# callee declares a parameter named P (and no **kwargs): the callee expects the dict as ONE
+# argument; expanding it makes every key an unexpected keyword (TypeError for any non-empty dict),
+# or silently binds keys to unrelated parameters.
+def check_dict_forward(prog, rep, rels, rule='CALL-dict-forward'):
+    import ast
+    from .core import params, unparse, key_text
+    ct = prog.classtable()
+
+    def scan(f, resolve):
+        """yield (call, P, owner_name, callee, bad) for every `self.m(**P)` with P a parameter"""
+        ps = set(params(f)) | {a.arg for a in f.args.kwonlyargs}
+        for c in ast.walk(f):
+            if not (isinstance(c, ast.Call) and isinstance(c.func, ast.Attribute) and
+                    unparse(c.func.value) == 'self'):
+                continue
+            stars = [k.value.id for k in c.keywords if k.arg is None and isinstance(
+                k.value, ast.Name) and k.value.id in ps]
+            if not stars:
+                continue
+            oname, g = resolve(c.func.attr)
+            if g is None:
+                continue
+            gps = set(params(g)) | {a.arg for a in g.args.kwonlyargs}
+            for P in stars:
+                if f.args.kwarg is not None and f.args.kwarg.arg == P:
+                    continue          # the caller's own **kwargs: forwarding is the idiom
+                yield c, P, oname, g, (g.args.kwarg is None and P in gps)
+
+    # positive control: the shape of the defect this rule was written for
+    fx = ast.parse("class K:\n"
+                   "    def outer(self, psi, data={}):\n"
+                   "        return self.inner(psi, **data)\n"
+                   "    def inner(self, psi, data={}):\n"
+                   "        return data\n"
+                   "    def fine(self, psi, **kw):\n"
+                   "        return self.inner(psi, **kw)\n").body[0]
+    meths = {x.name: x for x in fx.body}
+    hits = [bad for x in ('outer', 'fine') for *_, bad in scan(
+        meths[x], lambda nm: ('K', meths.get(nm)))]
+    rep.control(rule, hits == [True])
+    n = 0
+    for rel in rels:
+        m = prog.module(rel)
+        rep.unit(m)
+        for q, f in m.functions.items():
+            if '.' not in q:
+                continue
+            ci = ct.lookup(q.split('.')[0], m)
+            if ci is None:
+                continue
+
+            def resolve(nm, ci=ci):
+                owner, g = ct.resolve_method(ci, nm)
+                return (owner.name if owner else None), g
+            for c, P, oname, g, bad in scan(f, resolve):
+                n += 1
+                rep.instance(rule, {'caller': q, 'callee': '%s.%s' % (oname, g.name),
+                                    'expanded': P, 'callee_takes_it_whole': bad})
+                if bad:
+                    rep.violation(rule, m, q, 'expands:%s->%s' % (P, g.name),
+                                  '`%s` expands the dict parameter `%s` with **, but %s.%s '
+                                  'declares `%s` itself and takes no **kwargs: every key of a '
+                                  'non-empty `%s` is an unexpected keyword argument (TypeError)'
+                                  % (key_text(c)[:70], P, oname, g.name, P, P), c.lineno)
+    rep.instance(rule, {'modules': list(rels), 'expansions_of_parameters': n})
+    return n
